@@ -950,29 +950,46 @@ HIST_HOW = (("cog", "deg"), ("to_crs", "deg"), ("CRS.utm", "deg"), ("cog", "merc
 HIST_KEEP = ("_make_crs", "_make_crs_transform")  # CRS construction / transformer caches: not the utm path
 
 
-def clear_utm_caches():
-    """Empty every memoising wrapper (functools / cachetools: ``cache_clear`` or ``.cache``) found in odc.geo.crs and
-    on its CRS class, except the CRS-construction and transformer caches.  On a tree without such a cache: a no-op."""
-    import odc.geo.crs as M  # pylint: disable=import-outside-toplevel
+def clear_caches(mods=("crs",)):
+    """Empty every memoising wrapper (functools / cachetools: ``cache_clear`` or ``.cache``) and every cachetools.Cache
+    object found at module level (and on classes defined there) in the named odc.geo modules, except the CRS-construction
+    and transformer caches.  On a tree without such a cache: a no-op."""
+    import importlib  # pylint: disable=import-outside-toplevel
+
+    import cachetools  # pylint: disable=import-outside-toplevel
 
     n = 0
-    for ns in (vars(M), vars(M.CRS)):
-        for name, obj in list(ns.items()):
-            if name in HIST_KEEP or name.startswith("__"):
-                continue
-            f = getattr(obj, "__func__", obj)
-            cc = getattr(f, "cache_clear", None)
-            if callable(cc):
-                cc()
-                n += 1
-                continue
-            c = getattr(f, "cache", None)
-            if c is not None and callable(f) and not isinstance(f, type):
-                c = c() if callable(c) else c
-                if hasattr(c, "clear"):
-                    c.clear()
+    for mn in mods:
+        M = importlib.import_module(f"odc.geo.{mn}")
+        spaces = [vars(M)] + [vars(c) for c in vars(M).values() if isinstance(c, type) and c.__module__ == M.__name__]
+        for ns in spaces:
+            for name, obj in list(ns.items()):
+                if name in HIST_KEEP or name.startswith("__"):
+                    continue
+                if isinstance(obj, cachetools.Cache):
+                    obj.clear()
                     n += 1
+                    continue
+                f = getattr(obj, "__func__", obj)
+                cc = getattr(f, "cache_clear", None)
+                if callable(cc):
+                    cc()
+                    n += 1
+                    continue
+                c = getattr(f, "cache", None)
+                if c is not None and callable(f) and not isinstance(f, type):
+                    c = c() if callable(c) else c
+                    if hasattr(c, "clear"):
+                        c.clear()
+                        n += 1
     return n
+
+
+def clear_utm_caches():
+    return clear_caches(("crs",))
+
+
+LAZY_MODS = ("crs", "geom", "geobox", "overlap", "math", "gcp", "types")
 
 
 def hist_src(kind, bd, d, w, side, relation):
@@ -1540,7 +1557,7 @@ PREOPS = ("extent", "boundingbox", "footprint-dst", "footprint-dst-buffered", "f
           "to_crs-dst-other-options", "three-targets", "xarray", "views", "unpickled", "crs-helpers")
 
 
-def apply_preop(op, gb, crs_arg, other):
+def apply_preop(op, gb, crs_arg, other, kw):
     import pickle  # pylint: disable=import-outside-toplevel
 
     from odc.geo.crs import CRS  # pylint: disable=import-outside-toplevel
@@ -1570,8 +1587,15 @@ def apply_preop(op, gb, crs_arg, other):
     elif op == "to_crs-other":
         _ = gb.to_crs(other)
     elif op == "to_crs-dst-other-options":
-        _ = gb.to_crs(crs_arg, shape=(7, 9), anchor="center", tight=False, tol=0.3)
-        _ = compute_output_geobox(gb, crs_arg, resolution="fit", tight=True)
+        # the request itself with ONE option changed at a time (and a couple changed together)
+        for extra in (dict(tol=0.3), dict(tol=0.0), dict(anchor="center"), dict(tight=True), dict(shape=(7, 9)),
+                      dict(resolution="fit"), dict(round_resolution=True, resolution="fit"),
+                      dict(shape=(7, 9), anchor="center", tol=0.3)):
+            try:
+                _ = compute_output_geobox(gb, crs_arg, **{**kw, **extra})
+                _ = gb.to_crs(crs_arg, **{**kw, **extra})
+            except AssertionError:
+                pass  # rounding a degree-sized pixel to a whole number gives 0
     elif op == "three-targets":
         for c in ("epsg:4326", "epsg:3857", "epsg:6933"):
             _ = compute_output_geobox(gb, c)
@@ -1610,11 +1634,14 @@ def run_lazy(case):
     crs_arg, want, kw = make_kw(S, loc, dst_enc, req, "default", False, 0.01)
     other = "epsg:3857" if want != 3857 else "epsg:6933"
     r = R()
-    gb = apply_preop(op, S.gbox, crs_arg, other)
+    clear_caches(LAZY_MODS)
+    gb = apply_preop(op, S.gbox, crs_arg, other, kw)
     S.gbox = gb
     what = f"[after {op}] " + call_txt(api, S, crs_arg, kw)
     g1 = call_api(api, gb, crs_arg, kw)
     judge(r, S, loc, dst_enc, req, "default", False, 0.01, g1, what)
+    # reference: a new object, after emptying whatever memoising caches the modules involved hold (none on /repo)
+    clear_caches(LAZY_MODS)
     S0 = fresh_instance(S)
     g0 = call_api(api, S0.gbox, crs_arg, kw)
     if not same_answer(g1, gb, g0, S0.gbox):
@@ -1801,6 +1828,19 @@ def main(ctx):
         "tol-sweep: containment is judged with the tol stated in the call on every entry point; the source origin is slid "
         "in steps of one (quick: two) source pixels over one output pixel so that a footprint edge falls within 1/100 of an "
         "output pixel past a grid line at several positions",
+        "odd-rasters: the footprint buffer is a distance (0.9 of the larger pixel side), i.e. (B/|rx|, B/|ry|) pixels; the "
+        "fit band and every other clause are unchanged; 2x20000 rasters use the outer-boundary oracle",
+        "area-limits: a raster touching the limit is inside the area of use; when the 0.9 px buffer leaves the lon/lat "
+        "domain (wraps at 180 / passes a pole) there is no buffered reference, so the tight / shape-displacement clauses are "
+        "skipped and containment, alignment, pixel size still judged; partly outside the target's area: nothing demanded, an "
+        "exception is recorded only",
+        "spellings: every variant is a spelling odc-geo accepts today (np.int64 / float32 resolutions and ndarray shapes are "
+        "rejected with ValueError and are not in the alphabet); the result must equal the plain spelling's through the "
+        "function, 'the source itself' included; rounded fits: pixel == rounding of the unrounded fit, then every clause",
+        "stale-id-wkt: the reference transformer and the CRS comparison are built from the WKT text, i.e. its definition",
+        "lazy-state: caches found in odc.geo.{crs,geom,geobox,overlap,math,gcp,types} (cachetools / functools wrappers, "
+        "cachetools.Cache objects; not the CRS construction / transformer caches) are emptied before the history and "
+        "before the reference call",
         "mirrored-sources: axis-aligned GeoBoxes whose columns run east-west and/or rows south-north are source GeoBoxes "
         "like any other (the quantifier's 'north-up and rotated' is read as 'any orientation'); kept in their own slice, "
         "finding keys carry the orientation (mx / su / r180)",
